@@ -18,12 +18,11 @@ ASSUMPTIONS = [
 
 WITNESS = {
     "F-19-fifo": (BY["fifo"], "fifo m 1 1 m 1 50 e 1", "readmit-cost"),
-    "F-19-clock": (BY["clock"], "clock m 1 1 m 1 50 e 1", "readmit-cost"),
-    "F-19-slru": (BY["slru"], "slru:10 m 1 1 m 1 50 e 1", "readmit-cost"),
     "F-20-arc-admit": (BY["arc"], "arc:2 m 1 1 m 2 1 m 3 1 e 3", "arc-unevictable-resident"),
-    "F-20-arc-evict": (BY["arc"], "arc:10 m 1 1 e 1 m 1 1 e 1 m 1 1 e 1", "arc-evict-stall"),
-    "F-21-tinylfu": (BY["tinylfu"], "tinylfu:100 m 1 1 e 1", "tinylfu-window-unevictable"),
 }
+# fixed (known_findings.txt `fixed:` lines, no witness): F-19-clock, F-19-slru (readmit-cost),
+# F-20-arc-evict (arc-evict-stall), F-21-tinylfu (tinylfu-window-unevictable).  Their monitor
+# clauses stay in place and are ordinary violations now; their shapes stay in the corpus.
 
 
 def run(tier, seed):
@@ -34,7 +33,7 @@ MANIFEST = {
     "engines": [{"name": "E-POLICY", "path": "coq/Cache/Policy*.v, coq/Proofs/Policy*Proofs.v, ocaml/eng_policy.ml, harness/seqdrv/src/bin/policy.rs",
                  "kind": "K1 pure-function models of the eight eviction policies (TinyLfu's sketch and Random's RNG as abstract components); contract proved for all call sequences; D1 tie through the public CachePolicy trait (functional for six policies, relational for Random/TinyLfu)"}],
     "technique": "Coq proof of the policy contract for all call sequences (induction over calls) + differential correspondence of the extracted model against fibre_cache::policy::*",
-    "text": "Coq theorems (Props/C14.v, Props/C14_more.v): for every call sequence (and every capacity, every RNG, every frequency sketch), Lru/Sieve/Random satisfy the full C14 contract (victims tracked, no duplicates, exact recorded costs, tracking ends only via victim/remove/clear, evict frees >= n when possible, re-admission updates cost); Fifo/Clock/Slru satisfy it except the re-admission clause (F-19); Arc satisfies it except that an admission may silently drop one other resident and evict may stall (F-20: both refuted on the faithful model, the stall is characterised exactly); TinyLfu satisfies it, including AdmitAndEvict admissions, except sufficiency (F-21: window keys are never nominated; evict falls short only when main is drained). Every refutation witness is replayed on the implementation and judged by the monitor. LRU/FIFO/SLRU eviction-order theorems. The hand-written models are tied to the code by running the extracted models and the real policies on the same generated call sequences every run.",
+    "text": "Coq theorems (Props/C14.v, Props/C14_more.v): for every call sequence (and every capacity, every RNG, every frequency sketch), Lru/Sieve/Clock/Slru/Random/TinyLfu satisfy the full C14 contract (victims tracked, no duplicates, exact recorded costs, tracking ends only via victim/remove/clear -- or, for TinyLfu, via the victims of an AdmitAndEvict decision --, evict frees >= n when possible, re-admission updates cost); Fifo satisfies it except the re-admission clause (F-19-fifo, pinned upstream); Arc satisfies it, including sufficiency, except that an admission may silently drop one other resident (F-20-arc-admit). Both exceptions are refuted on the faithful model with a witness that is replayed on the implementation and judged by the monitor. LRU/FIFO/SLRU eviction-order theorems. The hand-written models are tied to the code by running the extracted models and the real policies on the same generated call sequences every run.",
     "design_ref": "DESIGN.md §8 C14, §7 E-POLICY",
     "note": "Trusted: Coq kernel, ExtrOcamlBasic extraction + OCaml driver (incl. the replay instances for Random/TinyLfu), the D1 harness/generators. Modelled not verified: arena/HashMap internals (abstracted to ordered lists), u64 overflow, f64 rounding (exact below 2^26), the count-min sketch and the RNG (abstract; theorems hold for every instance).",
 }
